@@ -8,11 +8,7 @@ import sys
 VERIF = os.path.dirname(os.path.dirname(os.path.abspath(__file__)))
 sys.path.insert(0, VERIF)
 
-NOT_APPLICABLE = {
-    "C19": "wall-clock bound over runtime quantities (shard/worker counts, scheduler); its only structural core is three "
-           "arithmetic expressions describing one shard partition, which would be a frozen source fragment — no sound static "
-           "argument in reach bounds the delay (DESIGN.md §6)",
-}
+NOT_APPLICABLE = {}   # C19 was not_applicable until round 7; its coverage clauses are now claimed (DESIGN.md §5/C19, §6)
 
 props = [json.loads(l) for l in open(os.path.join(VERIF, "properties.jsonl"))]
 checks = []
